@@ -21,14 +21,15 @@
 (*   uri    sequence of symbols (word chunks and punctuation)              *)
 (*   targs  Template(cache_args=...) as a sequence of <<name, value>>      *)
 (*   bf     whether Template(buffer_filters=[..]) is set                   *)
-(*   en0    Template(cache_enabled=...)                                    *)
+(*   en0    Template(cache_enabled=...);  strict = strict_undefined        *)
 (*   inh    template it inherits from (0 = none); isbase = its page calls  *)
 (*          next.body() (it is only rendered through an inheriting one)    *)
 (*   page   [cached, key, pfx, args, sig, kp, items] (<%page> tag + body)   *)
 (*   secs   sequence of [name, kind, cached, key, pfx, args, buf, filt,    *)
 (*          sig, kp, items]; kind in def | ndef (nested def) | nblock |    *)
 (*          ablock; sig = the callable's signature (see Bind), kp = the    *)
-(*          parameter its cache_key mentions                               *)
+(*          parameter its cache_key mentions; reads = the body also reads  *)
+(*          the context name `u`, which a render may leave out (h = FALSE) *)
 (*   items  what a body does after printing its own token: a sequence of   *)
 (*          [sec, pos, kw, tm, how]: call section `sec` with positional    *)
 (*          and keyword actuals; how = "call" (same template),             *)
@@ -55,6 +56,9 @@
 (*   "inline-bf"              the wrapper of an inline (nested def /       *)
 (*                            anonymous block) cached section never        *)
 (*                            applies buffer_filters                       *)
+(*   "block-names-hoisted"    under strict_undefined the names a cached    *)
+(*                            <%block> body reads are looked up by the     *)
+(*                            ENCLOSING render function, hit or miss       *)
 (* With AsCoded = {} it is the intended design, for which the strict       *)
 (* invariants hold; with the deviations switched on TLC produces the       *)
 (* counterexamples which the harness replays on the real code.             *)
@@ -85,7 +89,7 @@ NSec(t) == Len(W[t].secs)
 \* the page seen as section 0
 SecOf(t, j) == IF j = 0 THEN [name |-> "body", kind |-> "page", cached |-> W[t].page.cached, key |-> W[t].page.key,
                               pfx |-> W[t].page.pfx, args |-> W[t].page.args, buf |-> FALSE, filt |-> FALSE,
-                              sig |-> W[t].page.sig, kp |-> W[t].page.kp,
+                              sig |-> W[t].page.sig, kp |-> W[t].page.kp, reads |-> W[t].page.reads,
                               items |-> W[t].page.items]
                ELSE W[t].secs[j]
 TopLevel(s) == s.kind \in {"page", "def", "nblock"}
@@ -97,7 +101,9 @@ ToFn(ps) == [n \in {ps[i][1] : i \in DOMAIN ps} |->
 \* int(eval(...)) of a timeout written in a tag attribute
 TimeoutConv == ("s:7" :> "i:7") @@ ("s:34" :> "i:34") @@ ("s:3600" :> "i:3600") @@ ("s:7200" :> "i:7200") @@ ("s:86400" :> "i:86400")
                @@ ("s:${60*60}" :> "i:3600")       \* an expression attribute: cache_timeout="${60*60}"
-Conv(f) == [n \in DOMAIN f |-> IF n = "timeout" /\ f[n] \in DOMAIN TimeoutConv THEN TimeoutConv[f[n]] ELSE f[n]]
+\* a cache_* attribute may be an expression: cache_foo="${MK}" (one name, a module-level constant "m")
+Conv(f) == [n \in DOMAIN f |-> IF n = "timeout" /\ f[n] \in DOMAIN TimeoutConv THEN TimeoutConv[f[n]]
+                              ELSE IF f[n] = "s:${MK}" THEN "s:m" ELSE f[n]]
 TArgs(t) == ToFn(W[t].targs)
 \* what the generated wrapper passes: page cache_* updated with the section's own, then timeout -> int
 SecKw(t, s) == Conv(ToFn(s.args) @@ ToFn(W[t].page.args))
@@ -135,6 +141,7 @@ Bind(sig, pos0, kw0, c) ==
 \* ("mod": <pfx>${MK})
 KeyOf(s, c, b) == IF s.key = "static" THEN DefName(s) ELSE IF s.key = "ctx" THEN <<s.pfx, c>>
                   ELSE IF s.key = "arg" THEN <<s.pfx, b[s.kp][1]>> ELSE IF s.key = "argctx" THEN <<s.pfx, b[s.kp][1], c>>
+                  ELSE IF s.key = "lit" THEN <<s.pfx, "lit">>       \* cache_key="<pfx>lit": an attribute without any name
                   ELSE <<s.pfx, "m">>
 \* the page body (<%page args="..."/>), rendered / included / reached through next.body(): no actuals, defaults apply
 PageBind(t) == Bind(W[t].page.sig, <<>>, <<>>, "")
@@ -197,7 +204,17 @@ RunSec(t, c, j, a, S) ==
   LET s == SecOf(t, j)
       n == Ns(t)
       \* run the body in a fresh buffer: own token, then the items
-      Body(S0) == RunItems(t, c, s.items, 1, [S0 EXCEPT !.ex[t][j] = @ + 1, !.out = <<Tok(s.name, S0.ex[t][j] + 1, c, a, t)>>])
+      \* (the body may read the context name u; when the render left u out -- S.hasu = FALSE -- the look-up fails: needi.
+      \* needu = needi, plus what the code adds: under strict_undefined the names read by the cached blocks placed in this
+      \* body are looked up when THIS function starts)
+      hoist == W[t].strict /\ "block-names-hoisted" \in AsCoded
+               /\ \E i \in DOMAIN s.items : s.items[i].how = "call" /\ SecOf(t, s.items[i].sec).kind \in {"nblock", "ablock"}
+                                             /\ SecOf(t, s.items[i].sec).cached /\ SecOf(t, s.items[i].sec).reads
+      Body(S0) == RunItems(t, c, s.items, 1,
+                           [S0 EXCEPT !.ex[t][j] = @ + 1,
+                                      !.needi = @ \/ (s.reads /\ ~S0.hasu), !.needu = @ \/ ((s.reads \/ hoist) /\ ~S0.hasu),
+                                      !.out = <<Tok(s.name, S0.ex[t][j] + 1, c, a, t)>>
+                                              \o (IF s.reads THEN <<Tok("u", 0, IF S0.hasu THEN "ann" ELSE "", <<>>, 0)>> ELSE <<>>)])
   IN IF ~s.cached
      THEN LET S1 == Body(S) IN [S1 EXCEPT !.out = S.out \o Uncached(t, s, S1.out)]
      ELSE IF ~enabled[t]                                       \* _ctx_get_or_create: return creation_function()
@@ -232,16 +249,27 @@ Init == /\ pg \in DOMAIN Progs
         /\ execs = [t \in T |-> [j \in 0..NSec(t) |-> 0]]
         /\ nset = 0 /\ last = [op |-> "init"]
 
-Render(t, c) ==
+\* h = whether the render's context provides the name u
+Rendered(t, c, h) ==
+  LET ch == Chain(t)
+      S0 == [st |-> store, rn |-> runs, ex |-> execs, rg |-> regions, calls |-> <<>>, served |-> <<>>, out |-> <<>>,
+             nx |-> Tail(ch), hasu |-> h, needu |-> FALSE, needi |-> FALSE]
+  IN RunSec(Head(ch), c, 0, PageBind(Head(ch)), S0)
+\* a render without u in which a look-up of u is due (needu) raises NameError; its partial effects are not modelled: the
+\* history ends there (Alive)
+Render(t, c, h) ==
   /\ "render" \in Ops
   /\ ~W[t].isbase
-  /\ LET ch == Chain(t)
-         S0 == [st |-> store, rn |-> runs, ex |-> execs, rg |-> regions, calls |-> <<>>, served |-> <<>>, out |-> <<>>,
-                nx |-> Tail(ch)]
-         S1 == RunSec(Head(ch), c, 0, PageBind(Head(ch)), S0)
-     IN /\ store' = S1.st /\ runs' = S1.rn /\ execs' = S1.ex /\ regions' = S1.rg
-        /\ last' = [op |-> "render", t |-> t, c |-> c, out |-> S1.out, calls |-> S1.calls, served |-> S1.served]
+  /\ LET S1 == Rendered(t, c, h)
+     IN IF S1.needu
+        THEN /\ last' = [op |-> "raised", t |-> t, c |-> c, h |-> h, needi |-> S1.needi]
+             /\ UNCHANGED <<store, runs, regions, execs>>
+        ELSE /\ store' = S1.st /\ runs' = S1.rn /\ execs' = S1.ex /\ regions' = S1.rg
+             /\ last' = [op |-> "render", t |-> t, c |-> c, h |-> h, out |-> S1.out, calls |-> S1.calls, served |-> S1.served]
   /\ UNCHANGED <<pg, enabled, nset>>
+\* leaving u out only matters where some body reads it
+AnyReads == \E t \in T : \E j \in 0..NSec(t) : SecOf(t, j).reads
+Alive == last.op # "raised"
 \* template.get_def(name).render(x=a, ...): a DefTemplate runs the top-level def alone, with the parent's cache
 RenderDef(t, j, a, c) ==
   /\ "renderdef" \in Ops
@@ -249,7 +277,7 @@ RenderDef(t, j, a, c) ==
   /\ ~W[t].secs[j].buf      \* DefTemplate.render() drops what a buffered def RETURNS, cached or not: not a caching matter
   /\ \A i \in DOMAIN W[t].secs[j].sig : W[t].secs[j].sig[i].k \notin {"kwo", "kw"}    \* render(**data) feeds named parameters only
   /\ LET S0 == [st |-> store, rn |-> runs, ex |-> execs, rg |-> regions, calls |-> <<>>, served |-> <<>>, out |-> <<>>,
-                nx |-> <<>>]
+                nx |-> <<>>, hasu |-> TRUE, needu |-> FALSE, needi |-> FALSE]
          sg == W[t].secs[j].sig
          np == Cardinality({i \in DOMAIN sg : sg[i].k = "pos"})
          S1 == RunSec(t, c, j, Bind(sg, <<>>, [i \in 1..np |-> <<sg[i].n, a>>], c), S0)     \* required parameters by keyword
@@ -306,16 +334,18 @@ KeysOf(t) == UNION {LET s == SecOf(t, j) IN
                       ELSE IF s.key = "ctx" THEN {<<s.pfx, c>> : c \in CtxVals}
                       ELSE IF s.key = "arg" THEN {<<s.pfx, a>> : a \in ArgVals}
                       ELSE IF s.key = "argctx" THEN {<<s.pfx, a, c>> : a \in ArgVals, c \in CtxVals}
+                      ELSE IF s.key = "lit" THEN {<<s.pfx, "lit">>}
                       ELSE {<<s.pfx, "m">>} : j \in 0..NSec(t)}
-DoRender == \E t \in T, c \in CtxVals : Render(t, c)
-DoInvBody == \E t \in T : W[t].page.cached /\ InvalidateBody(t)
-DoInvDef == \E t \in T : \E n \in NamesOf(t, {"def", "nblock"}) : InvalidateDef(t, n)
-DoInvClosure == \E t \in T : \E n \in NamesOf(t, {"ndef", "ablock"}) : InvalidateClosure(t, n)
-DoRenderDef == \E t \in T : \E j \in 1..NSec(t), a \in {"A", "B"}, c \in CtxVals : RenderDef(t, j, a, c)
-DoInvalidate == \E t \in T : \E k \in KeysOf(t), x \in XVals : Invalidate(t, k, x)
-DoSet == \E t \in T : \E k \in KeysOf(t), x \in XVals : Set(t, k, x)
-DoGet == \E t \in T : \E k \in KeysOf(t), x \in XVals : Get(t, k, x)
-DoToggle == \E t \in T : ToggleEnabled(t)
+\* (Alive is a conjunct of every action, not of Next: TLC's simulator picks a random ACTION and computes only its successors)
+DoRender == Alive /\ \E t \in T, c \in CtxVals, h \in (IF AnyReads THEN BOOLEAN ELSE {TRUE}) : Render(t, c, h)
+DoInvBody == Alive /\ \E t \in T : W[t].page.cached /\ InvalidateBody(t)
+DoInvDef == Alive /\ \E t \in T : \E n \in NamesOf(t, {"def", "nblock"}) : InvalidateDef(t, n)
+DoInvClosure == Alive /\ \E t \in T : \E n \in NamesOf(t, {"ndef", "ablock"}) : InvalidateClosure(t, n)
+DoRenderDef == Alive /\ \E t \in T : \E j \in 1..NSec(t), a \in {"A", "B"}, c \in CtxVals : RenderDef(t, j, a, c)
+DoInvalidate == Alive /\ \E t \in T : \E k \in KeysOf(t), x \in XVals : Invalidate(t, k, x)
+DoSet == Alive /\ \E t \in T : \E k \in KeysOf(t), x \in XVals : Set(t, k, x)
+DoGet == Alive /\ \E t \in T : \E k \in KeysOf(t), x \in XVals : Get(t, k, x)
+DoToggle == Alive /\ \E t \in T : ToggleEnabled(t)
 Next == DoRender \/ DoRenderDef \/ DoInvBody \/ DoInvDef \/ DoInvClosure \/ DoInvalidate \/ DoSet \/ DoGet \/ DoToggle
 Spec == Init /\ [][Next]_vars
 
@@ -337,6 +367,13 @@ ArgsPrecedence == IsRender => \A cl \in Range(last.calls) : cl.kw = Expected(cl.
 \* entries of one template are never served to another
 Isolation == /\ IsRender => \A r \in Range(last.served) : r.hit => r.owner = r.t
              /\ (last.op = "get" /\ last.found) => last.owner = last.t
+
+\* the names a cached body reads are looked up only when the body runs: a render that leaves such a name out fails only
+\* if some body reading it is executed (a miss, caching off, or an uncached section)
+NamesOnlyOnMiss == last.op = "raised" => last.needi
+HoistPossible == \E t \in T : W[t].strict /\ \E j \in 1..NSec(t) : W[t].secs[j].kind \in {"nblock", "ablock"}
+                                                                   /\ W[t].secs[j].cached /\ W[t].secs[j].reads
+NamesOnlyOnMissW == last.op = "raised" => (last.needi \/ HoistPossible)
 
 \* the same, excusing exactly the recorded deviations of the code (used where the model follows the code)
 InlineBF(t, j) == LET s == SecOf(t, j) IN ~TopLevel(s) /\ s.buf /\ W[t].bf
